@@ -121,6 +121,22 @@ def eval_case(case):
                 fails.append(({"mechanism": "reopen", "class": f"raised-{type(e).__name__}", "touch": "some" if tset else "none"},
                               f"{name} touch={tset} cycle {k}: reopening the saved copy raised {type(e).__name__}: {e}"))
                 break
+            # the same open object saved a second time must produce the same document again
+            pk2 = pk.replace(".numbers", "-again.numbers")
+            tmp.append(pk2)
+            try:
+                save_doc(worker, pk2)
+                obs2, _ = open_doc(pk2)
+                for cls, desc, sh, tb, r, c in _structured_diff(sk, doc_snap(obs2)):
+                    if tb in pivot_tables:
+                        continue
+                    fails.append(({"mechanism": "second-save-of-same-object", "class": KEYNAMES.get(cls, cls), "touch": "some" if tset else "none"},
+                                  f"{name} touch={tset} cycle {k}: second save of the same open document differs from its first save: {desc}"))
+                    if len(fails) > 40:
+                        break
+            except Exception as e:  # noqa: BLE001
+                fails.append(({"mechanism": "second-save-of-same-object", "class": f"raised-{type(e).__name__}", "touch": "some" if tset else "none"},
+                              f"{name} touch={tset} cycle {k}: second save of the same open document raised {type(e).__name__}: {e}"))
             for base, base_snap in (("previous", prev_snap), ("original", s0)):
                 if base == "original" and k == 1:
                     continue
